@@ -92,8 +92,8 @@ func txFlows(w *World, tx *TxCtx, pre, post sheet, denom, sender, receiver strin
 		fee := tx.Fee.AmountOf(denom).BigInt()
 		if fee.Sign() > 0 {
 			src := tx.Payer.String()
-			if tx.Spec.Granter > 0 {
-				src = AddrOf(w.Actors, tx.Spec.Granter-1).String()
+			if len(tx.Granter) > 0 {
+				src = tx.Granter.String()
 			}
 			f.Collector.Sub(f.Collector, fee)
 			switch src {
@@ -447,7 +447,9 @@ func (m *monC12) AfterTx(w *World, tx *TxCtx) {
 		return
 	}
 	// a real claim / cancel / affordable top-up on a funded stream must succeed
-	if len(Flatten(tx.Msgs)) != 1 || !tx.AntePassed || tx.Spec.Gas < ampleGas || tx.Resp.Code == 0 {
+	// (the gas limit is read from the result: a replayed transaction carries the limit of the bytes
+	// that are delivered again, not of the spec that asked for the replay)
+	if len(Flatten(tx.Msgs)) != 1 || !tx.AntePassed || tx.Spec.Gas < ampleGas || tx.Resp.GasWanted < ampleGas || tx.Resp.Code == 0 || strings.Contains(tx.Resp.Log, "out of gas") {
 		return
 	}
 	pre, _ := tx.Stash["c12.pre"].(*c12Pre)
